@@ -29,12 +29,12 @@ def build_case(rng, i, item):
     ln = y["len"]
     enc_sector = rng.choice([2, 3])      # 2: the tail of the 3k3y area (0x1000..0x1070) lies in an encrypted sector
     if ln == "long":
-        sectors, extra, regions = 6, 0, [[0, enc_sector], [enc_sector + 1, 6]]
+        sectors, extra, regions = 6, 0, [[0, enc_sector - 1], [enc_sector + 1, 6]]
     else:
         size = {"short": 0xF00, "inside": 0x1000, "exact": 0x1070}[ln]
-        sectors, extra, regions = size // S, size % S, [[0, 1], [1, 3]]
+        sectors, extra, regions = size // S, size % S, [[0, 2], [4, 5]]
     if y["table"] == "invalid":
-        regions = rng.choice([[[0, 1]], [[1, 2], [3, 4]], [[0, 3], [2, 4]], [[0, 2], [3, 3]]])
+        regions = rng.choice([[[0, 1]], [[1, 2], [3, 4]], [[0, 3], [2, 4]], [[0, 2], [4, 3]]])
     kind = {"none": "redump", "enc": "3k3y-enc", "dec": "3k3y-dec"}[y["watermark"]]
     true_key = rng.choice([kA, kB, kE])
     spec = {"kind": kind, "key": true_key, "regions": regions, "sectors": sectors, "extraLen": extra, "embedded": kE,
